@@ -80,13 +80,13 @@ def gen_config(rng, profile):
 def _weights(cfg):
     if cfg["profile"] == "C18":
         w = {
-            "new_coords": 4, "new_shell": 2, "new_container": 2, "write_file": 14, "parse": 16,
+            "new_coords": 4, "new_shell": 2, "ctor": 1, "new_container": 2, "write_file": 14, "parse": 16,
             "make_contr": 18, "new_mole": 5, "from_pyscf": 8, "new_iodata": 1, "from_iodata": 1, "update": 3, "scribble": 2,
             "query": 10,
         }
     else:
         w = {
-            "new_coords": 6, "new_shell": 8, "new_container": 6, "write_file": 3, "parse": 3,
+            "new_coords": 6, "new_shell": 8, "ctor": 3, "new_container": 6, "write_file": 3, "parse": 3,
             "make_contr": 5, "new_mole": 2, "from_pyscf": 2, "new_iodata": 2, "from_iodata": 3, "update": 9, "scribble": 4,
             "query": 52,
         }
@@ -209,6 +209,16 @@ def g_new_shell(rng, cfg):
         "cls": rng.choice(["base", "base", "base", "conv", "pyscf", "unnorm", "cartperm", "sphperm"]),
         "icenter": rng.choice([None, None, 0, 1, 2]),
     }
+
+
+def g_ctor(rng, cfg):
+    """Constructing a shell is a public call too: here the shell is discarded (a query)."""
+    op = g_new_shell(rng, cfg)
+    op["keep"] = False
+    op["env"] = g_env(rng, cfg)
+    op["fault"] = g_fault(rng, cfg)
+    op["invalid"] = g_invalid(rng, cfg)
+    return op
 
 
 def g_new_container(rng, cfg):
@@ -480,6 +490,7 @@ def g_query(rng, cfg, fn=None):
 GEN = {
     "new_coords": g_new_coords,
     "new_shell": g_new_shell,
+    "ctor": g_ctor,
     "new_container": g_new_container,
     "write_file": g_write_file,
     "parse": g_parse,
@@ -503,7 +514,7 @@ SWEEP_CHUNK = 24
 def sweep_targets(profile):
     if profile == "C18":
         return ["parse", "make_contr", "from_pyscf"]
-    return [q[0] for q in QUERY_FNS] + ["make_contr", "from_pyscf", "parse", "from_iodata"]
+    return [q[0] for q in QUERY_FNS] + ["make_contr", "from_pyscf", "parse", "from_iodata", "update", "ctor"]
 
 
 def gen_sweep(seed, profile):
@@ -546,6 +557,11 @@ def gen_sweep(seed, profile):
         q = g_from_pyscf(rng, cfg2, keep=False)
     elif target == "from_iodata":
         q = g_from_iodata(rng, cfg2, keep=False)
+    elif target == "update":
+        q = g_update(rng, cfg2)
+        q["what"] = rng.choice(["coeffs", "exps", "angmom"])
+    elif target == "ctor":
+        q = g_ctor(rng, cfg2)
     else:
         q = g_query(rng, cfg2, fn=target)
         q["keep"] = None
